@@ -92,6 +92,8 @@ struct Recorder {
     pending_rewrites: Vec<usize>,
     pending_rewritten: bool,
     track_cycles: bool,
+    forces: HashMap<usize, OpcodeKind>,
+    body_index: usize,
 }
 
 thread_local! {
@@ -106,6 +108,33 @@ pub fn start_recording(track_cycles: bool) {
             ..Default::default()
         })
     });
+}
+
+/// Force the opcode choice of given body steps (0-based) of the next generation on this
+/// thread; a forced opcode is only taken when the generator itself considers it enabled.
+pub fn set_forces(forces: Vec<(usize, OpcodeKind)>) {
+    RECORDER.with(|r| {
+        if let Some(rec) = r.borrow_mut().as_mut() {
+            rec.forces = forces.into_iter().collect();
+            rec.body_index = 0;
+        }
+    });
+}
+
+/// Called by the generation loop after its own choice: returns the forced opcode, if any.
+pub(crate) fn override_choice(chosen: OpcodeKind) -> OpcodeKind {
+    RECORDER.with(|r| {
+        let mut guard = r.borrow_mut();
+        let Some(rec) = guard.as_mut() else {
+            return chosen;
+        };
+        let idx = rec.body_index;
+        rec.body_index += 1;
+        match rec.forces.get(&idx) {
+            Some(op) if rec.pending_enabled.as_ref().is_some_and(|e| e.contains(op)) => *op,
+            _ => chosen,
+        }
+    })
 }
 
 /// Remove the recorder and return what it saw.
